@@ -9,11 +9,14 @@ import (
 
 	protocol "github.com/hujm2023/go-sms-protocol"
 	"github.com/hujm2023/go-sms-protocol/cmpp"
+	"github.com/hujm2023/go-sms-protocol/cmpp/cmpp20"
 	"github.com/hujm2023/go-sms-protocol/codec"
 	"github.com/hujm2023/go-sms-protocol/datacoding"
 	"github.com/hujm2023/go-sms-protocol/packet"
 	"github.com/hujm2023/go-sms-protocol/smgp"
+	"github.com/hujm2023/go-sms-protocol/smgp/smgp30"
 	"github.com/hujm2023/go-sms-protocol/smpp"
+	"github.com/hujm2023/go-sms-protocol/smpp/smpp34"
 
 	sms "github.com/hujm2023/go-sms-protocol"
 
@@ -195,7 +198,38 @@ func (h *history) step() bool {
 	var op string
 	ctx := context.Background()
 	pan, val, st := fw.Try(func() {
-		switch k := r.Intn(16); k {
+		switch k := r.Intn(18); k {
+		case 16: // the packet helpers (heartbeats, terminate): every call hands out bytes of its own
+			op = "helper-packets"
+			seq := r.U32()
+			for _, x := range []struct {
+				name string
+				b    []byte
+			}{
+				{"smpp34.NewEnquireLinkReqBytes", smpp34.NewEnquireLinkReqBytes(seq)},
+				{"smpp34.NewEnquireLinkRespBytes", smpp34.NewEnquireLinkRespBytes(seq + 1)},
+				{"smpp34.NewUnBindBytes", smpp34.NewUnBindBytes(seq + 2)},
+				{"smpp34.NewUnBindRespBytes", smpp34.NewUnBindRespBytes(seq + 3)},
+				{"cmpp20.NewActiveTestPacket", cmpp20.NewActiveTestPacket(seq + 4)},
+				{"cmpp20.NewTerminatePacket", cmpp20.NewTerminatePacket(seq + 5)},
+				{"smgp30.NewActiveTestPacket", smgp30.NewActiveTestPacket(seq + 6)},
+			} {
+				h.keepBytes(x.name, x.b)
+			}
+		case 17: // an SMPP PDU with a large optional parameter (message_payload carries up to 64 KiB), decoded from a
+			// caller buffer that is reused afterwards
+			keys := []string{"smpp34.SubmitSm/submit_sm", "smpp34.DeliverSm/deliver_sm"}
+			st := h.ts.ByKey[keys[r.Intn(2)]]
+			op = "decode " + st.Key() + " (large optional parameter)"
+			v, _ := pdus.Gen(st, r, -1, 0)
+			n := r.Pick(1023, 1024, 1025, 1500, 4096, 40000, 65531)
+			v.F["TLV"] = []pdus.TLV{{Tag: uint16(r.Pick(0x0424, 0x1403, 0x0005)), Len: uint16(n), Val: r.Bytes(n)}, {Tag: 0x0204, Len: 2, Val: []byte{0, 1}}}
+			buf := pdus.RefEncode(st, v)
+			p := st.New()
+			if err := p.IDecode(buf); err == nil {
+				h.keepPDU(op, st, p)
+			}
+			scribble(buf)
 		case 15: // text codecs over a buffer the caller keeps using: the codec types are []byte, a conversion does not copy
 			text, _ := randomText(r, 120)
 			if r.Chance(1, 3) { // the plain 7-bit case real traffic mostly is
